@@ -30,7 +30,7 @@ func (eng) CoqRun(mode string) string      { return "Check_ds.run" }
 func (eng) Rule(mode string) string {
 	return "search: every (n<=N0, target = each element, each gap, below, above) exhaustively for int slices and for table ranges, plus random large; " +
 		"pset: persistent histories over a pool of set values (NewSet(cap) with spare capacity, SetOf, Added/Without/Diff from any member, in-place Add on any member), every member observed (Slice, All, Size, Has over the universe) at random points and at the end; heap/ppq/ziptree/cache/set/smap: random histories of 1..60 ops over small key/priority pools (duplicates, prefix-related keys, equal priorities, empty structure reached by draining); " +
-		"iterator values (ZipTree.AscendPrefix, Set.All, SortedMap.All) are obtained once and ranged several times: early breaks first, mutations in between, a complete pass last; merge/mergesorted: 0..6 sorted iterators incl. empty ones, shared keys, exact duplicates. Non-trivial: history with >= 4 ops that reads at least once from a non-empty structure (search: n >= 2)."
+		"comparators handed to SearchUnique/Heap/PPQ/Merge/MergeSorted return mag*(-1|0|+1), mag in {1,2,7,1000003} (only the sign is contractual); zipn: 1..3 trees exchanging node OBJECTS (replaced nodes, nodes of a given-up tree) re-Put as they are or with another key/value; iterator values (ZipTree.AscendPrefix, Set.All, SortedMap.All) are obtained once and ranged several times: early breaks first, mutations in between, a complete pass last; merge/mergesorted: 0..6 sorted iterators incl. empty ones, shared keys, exact duplicates. Non-trivial: history with >= 4 ops that reads at least once from a non-empty structure (search: n >= 2)."
 }
 
 // generic op: kind + small payload
@@ -41,6 +41,7 @@ type op struct {
 	N uint64   `json:"n,omitempty"`
 	M uint64   `json:"m,omitempty"`
 	L [][]byte `json:"l,omitempty"`
+	T uint64   `json:"t,omitempty"` // zipn: tree
 }
 
 func mk(st string, name string, params map[string]any, ops []op) *hx.Case {
@@ -206,6 +207,43 @@ func genZip(r *hx.Rand) *hx.Case {
 	}
 	ops = append(ops, op{K: "ascend", A: []byte{}})
 	return mk("zip", "rand", nil, ops)
+}
+
+// several zip trees exchanging node objects
+func genZipN(r *hx.Rand) *hx.Case {
+	nt := r.Range(1, 3)
+	var ops []op
+	n := histLen(r)
+	tr := func() uint64 { return uint64(r.Intn(nt)) }
+	smallKey := func() []byte {
+		if r.Chance(1, 3) {
+			return genKey(r)
+		}
+		return slices.Clone(hx.Pick(r, keyPool[:9]))
+	}
+	for i := 0; i < n; i++ {
+		switch x := r.Intn(20); {
+		case x < 8:
+			ops = append(ops, op{K: "put", T: tr(), A: smallKey(), B: r.Bytes(r.Intn(3)), N: uint64(r.Intn(6))})
+		case x < 11:
+			ops = append(ops, op{K: "putnode", T: tr(), M: r.U64() % 64, N: uint64(r.Intn(6))})
+		case x < 13:
+			ops = append(ops, op{K: "putnodekv", T: tr(), M: r.U64() % 64, A: smallKey(), B: r.Bytes(r.Intn(3)), N: uint64(r.Intn(6))})
+		case x == 13:
+			ops = append(ops, op{K: "reset", T: tr()})
+		case x < 16:
+			ops = append(ops, op{K: "get", T: tr(), A: smallKey()})
+		case x == 16:
+			t := tr()
+			ops = append(ops, op{K: "seq", T: t, A: nil}, op{K: "range", T: t, N: 1000, M: uint64(r.Intn(3))})
+		default:
+			ops = append(ops, op{K: "ascend", T: tr(), A: hx.Pick(r, [][]byte{{}, {}, {1}, {2}})})
+		}
+	}
+	for t := 0; t < nt; t++ {
+		ops = append(ops, op{K: "ascend", T: uint64(t), A: []byte{}})
+	}
+	return mk("zipn", "rand", map[string]any{"ntrees": nt}, ops)
 }
 
 func genCache(r *hx.Rand) *hx.Case {
@@ -410,8 +448,17 @@ func (eng) Generate(mode, tier string, r *hx.Rand) []*hx.Case {
 		longHist = true
 	}
 	for i := 0; i < per; i++ {
-		cs = append(cs, genHeap(r.Fork()), genPPQ(r.Fork()), genZip(r.Fork()), genCache(r.Fork()), genSet(r.Fork()), genPSet(r.Fork()), genSMap(r.Fork()),
+		cs = append(cs, genHeap(r.Fork()), genPPQ(r.Fork()), genZip(r.Fork()), genZipN(r.Fork()), genCache(r.Fork()), genSet(r.Fork()), genPSet(r.Fork()), genSMap(r.Fork()),
 			genMerge(r.Fork(), "merge"), genMerge(r.Fork(), "msorted"))
+	}
+	mags := []int{1, 1, 2, 7, 1000003}
+	for i, c := range cs {
+		switch c.Params["struct"] {
+		case "search":
+			c.Params["mag"] = mags[i%len(mags)]
+		case "heap", "ppq", "merge", "msorted":
+			c.Params["mag"] = hx.Pick(r, mags)
+		}
 	}
 	return cs
 }
@@ -561,6 +608,11 @@ func (eng) execute(mode string, c *hx.Case) (*hx.Result, error) {
 	var obs []any
 	tags := []string{"struct=" + st}
 	reads := 0 // reads from a non-empty structure
+	// comparators: only the SIGN of the result is part of the three-way contract; ours return mag * (-1 | 0 | +1)
+	mag := max(1, pint(c.Params, "mag"))
+	if mag > 1 {
+		tags = append(tags, "comparator-magnitude>1")
+	}
 	add := func(term string, o any) { terms = append(terms, term); obs = append(obs, o) }
 	lenTag := func() string {
 		switch n := len(ops); {
@@ -589,10 +641,10 @@ func (eng) execute(mode string, c *hx.Case) (*hx.Result, error) {
 			}
 			idx, ok := sliceu.SearchUnique(xs, key(t), func(x tbl, k []byte) int {
 				if bytes.Compare(x.s, k) == 1 {
-					return 1
+					return mag
 				}
 				if bytes.Compare(x.e, k) == -1 {
-					return -1
+					return -mag
 				}
 				return 0
 			})
@@ -605,12 +657,12 @@ func (eng) execute(mode string, c *hx.Case) (*hx.Result, error) {
 			xs[i] = 2*i + 1
 			items[i] = hx.CoqN(uint64(xs[i]))
 		}
-		idx, ok := sliceu.SearchUnique(xs, t, cmp.Compare[int])
+		idx, ok := sliceu.SearchUnique(xs, t, func(a, b int) int { return mag * cmp.Compare(a, b) })
 		term := fmt.Sprintf("CSearch %s %s %s %s", hx.CoqList(items, "N"), hx.CoqN(uint64(t)), hx.CoqN(uint64(idx)), hx.CoqBool(ok))
 		return &hx.Result{Term: term, Nontrivial: n >= 2, Tags: append(tags, fmt.Sprintf("search:found=%v", ok)), Observed: map[string]any{"idx": idx, "ok": ok}}, nil
 
 	case "heap":
-		h := ds.NewHeap(func(a, b *hitem) int { return cmp.Compare(a.prio, b.prio) }, 4)
+		h := ds.NewHeap(func(a, b *hitem) int { return mag * cmp.Compare(a.prio, b.prio) }, 4)
 		h.SetIndexAssigner(func(x *hitem, i int) { x.index = i })
 		live := map[uint64]*hitem{}
 		eq := 0
@@ -700,7 +752,7 @@ func (eng) execute(mode string, c *hx.Case) (*hx.Result, error) {
 				initTerms[i] = append(initTerms[i], hx.CoqN(x.prio))
 			}
 		}
-		q := ds.NewPartitionedPriorityQueue(qp, func(a, b pitem) int { return cmp.Compare(a.prio, b.prio) }, func(x pitem) int { return x.part })
+		q := ds.NewPartitionedPriorityQueue(qp, func(a, b pitem) int { return mag * cmp.Compare(a.prio, b.prio) }, func(x pitem) int { return x.part })
 		for _, o := range ops[i0:] {
 			switch o.K {
 			case "push":
@@ -738,17 +790,70 @@ func (eng) execute(mode string, c *hx.Case) (*hx.Result, error) {
 		tags = append(tags, fmt.Sprintf("ppq:parts=%d", min(np, 6)))
 		return &hx.Result{Term: "CPPQ " + hx.CoqList(its, "list N") + " " + hx.CoqList(terms, "ppq_op"), Nontrivial: len(terms) >= 4 && reads > 0, Tags: append(tags, lenTag()), Observed: obs}, nil
 
-	case "zip":
-		t := ziptree.New()
-		replaced := 0
-		var zseqs []iter.Seq[*ziptree.Node]
+	case "zip", "zipn":
+		// zipn: several trees; node OBJECTS that were part of a tree before (the node Put returned as replaced, the nodes of
+		// a tree that was given up) are Put again, as they are or with another key/value, into any tree.
+		ntrees := 1
+		if st == "zipn" {
+			ntrees = max(1, pint(c.Params, "ntrees"))
+		}
+		trees := make([]*ziptree.ZipTree, ntrees)
+		allSeqs := make([][]iter.Seq[*ziptree.Node], ntrees)
+		for i := range trees {
+			trees[i] = ziptree.New()
+		}
+		var detached []*ziptree.Node
+		replaced, reusedNodes := 0, 0
 		reranged := false
 		for _, o := range ops {
+			ti := int(o.T % uint64(ntrees))
+			t := trees[ti]
+			zseqs := allSeqs[ti]
+			add := func(term string, ob any) {
+				if st == "zipn" {
+					term = fmt.Sprintf("ZOn %d (%s)", ti, term)
+				}
+				add(term, ob)
+			}
 			switch o.K {
+			case "reset":
+				if st != "zipn" {
+					continue
+				}
+				for n := range t.AscendPrefix(nil) {
+					detached = append(detached, n)
+				}
+				trees[ti] = ziptree.New()
+				allSeqs[ti] = nil
+				terms = append(terms, fmt.Sprintf("ZReset %d", ti))
+				obs = append(obs, nil)
+			case "putnode", "putnodekv":
+				if len(detached) == 0 {
+					continue
+				}
+				di := int(o.M % uint64(len(detached)))
+				nd := detached[di]
+				detached = slices.Delete(detached, di, di+1)
+				if o.K == "putnodekv" {
+					nd.Key, nd.Value = slices.Clone(o.A), slices.Clone(o.B)
+				}
+				k, v := slices.Clone(nd.Key), slices.Clone(nd.Value)
+				old := t.Put(nd)
+				reusedNodes++
+				if old != nil {
+					replaced++
+					detached = append(detached, old)
+					add(fmt.Sprintf("ZPut %s %s %d %s", hx.CoqBytes(k), hx.CoqBytes(v), o.N, optBytes(old.Value, true)), old.Value)
+				} else {
+					add(fmt.Sprintf("ZPut %s %s %d %s", hx.CoqBytes(k), hx.CoqBytes(v), o.N, optBytes(nil, false)), nil)
+				}
 			case "put":
 				old := t.Put(ziptree.NewNode(slices.Clone(o.A), slices.Clone(o.B), nil))
 				if old != nil {
 					replaced++
+					if st == "zipn" {
+						detached = append(detached, old)
+					}
 					add(fmt.Sprintf("ZPut %s %s %d %s", hx.CoqBytes(o.A), hx.CoqBytes(o.B), o.N, optBytes(old.Value, true)), old.Value)
 				} else {
 					add(fmt.Sprintf("ZPut %s %s %d %s", hx.CoqBytes(o.A), hx.CoqBytes(o.B), o.N, optBytes(nil, false)), nil)
@@ -762,7 +867,7 @@ func (eng) execute(mode string, c *hx.Case) (*hx.Result, error) {
 					add(fmt.Sprintf("ZGet %s (@None (bytes * bytes))", hx.CoqBytes(o.A)), nil)
 				}
 			case "seq":
-				zseqs = append(zseqs, t.AscendPrefix(slices.Clone(o.A)))
+				allSeqs[ti] = append(zseqs, t.AscendPrefix(slices.Clone(o.A)))
 				add("ZSeq "+hx.CoqBytes(o.A), nil)
 			case "range":
 				if len(zseqs) == 0 {
@@ -817,6 +922,12 @@ func (eng) execute(mode string, c *hx.Case) (*hx.Result, error) {
 		}
 		if reranged {
 			tags = append(tags, "zip:iterator-ranged-again")
+		}
+		if reusedNodes > 0 {
+			tags = append(tags, "zip:node-objects-reused")
+		}
+		if st == "zipn" {
+			return &hx.Result{Term: fmt.Sprintf("CZipN %d ", ntrees) + hx.CoqList(terms, "zipn_op"), Nontrivial: len(terms) >= 4 && reads > 0 && reusedNodes > 0, Tags: append(tags, lenTag()), Observed: obs}, nil
 		}
 		return &hx.Result{Term: "CZip " + hx.CoqList(terms, "zip_op"), Nontrivial: len(terms) >= 4 && reads > 0, Tags: append(tags, lenTag()), Observed: obs}, nil
 
@@ -1170,7 +1281,7 @@ func (eng) execute(mode string, c *hx.Case) (*hx.Result, error) {
 		}
 		var out []string
 		var ob []mitem
-		for x := range mergesort.Merge(its, func(a, b mitem) int { return strings.Compare(a.Key, b.Key) }, func(a, b mitem) mitem {
+		for x := range mergesort.Merge(its, func(a, b mitem) int { return mag * strings.Compare(a.Key, b.Key) }, func(a, b mitem) mitem {
 			if a.Seq > b.Seq {
 				return a
 			}
@@ -1212,7 +1323,7 @@ func (eng) execute(mode string, c *hx.Case) (*hx.Result, error) {
 		}
 		var out []string
 		var ob []sitem
-		for x := range iteru.MergeSorted(its, func(a, b sitem) int { return cmp.Compare(a.K, b.K) }) {
+		for x := range iteru.MergeSorted(its, func(a, b sitem) int { return mag * cmp.Compare(a.K, b.K) }) {
 			out = append(out, hx.CoqPair(hx.CoqN(x.K), hx.CoqN(x.Tag)))
 			ob = append(ob, x)
 			if lim > 0 && len(out) >= lim {
